@@ -8,6 +8,7 @@ import (
 	"fmt"
 	"io"
 	"os"
+	"runtime/pprof"
 
 	"verifharness/world"
 )
@@ -21,7 +22,21 @@ func main() {
 	if len(os.Args) != 2 || os.Args[1] != "exec" {
 		usage()
 	}
-	os.Exit(run(os.Stdin, os.Stdout))
+	code := 0
+	func() {
+		// HARNESS_CPUPROFILE=<file> writes a CPU profile (diagnostics only, no effect on the output).
+		if path := os.Getenv("HARNESS_CPUPROFILE"); path != "" {
+			f, err := os.Create(path)
+			if err == nil {
+				defer f.Close()
+				if pprof.StartCPUProfile(f) == nil {
+					defer pprof.StopCPUProfile()
+				}
+			}
+		}
+		code = run(os.Stdin, os.Stdout)
+	}()
+	os.Exit(code)
 }
 
 // execOne never lets a panic escape: World.Exec recovers on its own, this is the second net.
